@@ -259,12 +259,12 @@ Section Cover.
 Variable pyint : str -> option Z.
 Variable d : data.
 
-(** Every literal-site lookup with a non-empty id in [tr] is a message event
-    of [evs] at the position of its origin. *)
+(** Every literal-site lookup of a reportable message in [tr] is a message
+    event of [evs] at the position of its origin. *)
 Definition covered (evs : list ev) (tr : trace) : Prop :=
   forall tc m,
     In tc tr -> tc_lit tc = true ->
-    mtext_of_call (tc_call tc) = Some m -> mtext_id m <> [] ->
+    mtext_of_call (tc_call tc) = Some m -> reportable m = true ->
     In (EvMsg (tc_pos tc) m) evs.
 
 Lemma covered_nil evs : covered evs [].
@@ -379,11 +379,7 @@ Proof.
   destruct (tr_call pyint d args sing plural) as [c| | |] eqn:E; cbn [fst] in H;
     try (destruct H; fail).
   destruct H as [H|[]]. subst tc. cbn [tc_call tc_pos tc_lit] in *.
-  assert (P : mb_parts sing <> []).
-  { intro Z. pose proof (tr_call_id _ _ _ _ _ _ E) as I.
-    destruct sing as [sp parts]. cbn [mb_parts] in Z. subst parts.
-    rewrite msg_text_no_parts in I.
-    destruct c; cbn in M, I; inversion I; subst; inversion M; subst; apply NE; reflexivity. }
+  pose proof (tr_call_reportable _ _ _ _ _ _ _ E M NE) as P.
   destruct (tr_call_literal _ _ _ _ _ _ E L P) as [m' [T M']].
   rewrite M in M'. inversion M'; subst m'.
   cbn [visit]. right. apply in_or_app. left. rewrite T. cbn. left. reflexivity.
@@ -520,7 +516,7 @@ Theorem extraction_covers_lookups : forall t ms tc m,
   In tc (fst (render pyint d t)) ->
   tc_lit tc = true ->
   mtext_of_call (tc_call tc) = Some m ->
-  mtext_id m <> [] ->
+  reportable m = true ->
   exists l cs,
     line_number (t_source t) (tc_pos tc) = Ok l /\
     In {| mt_line := l; mt_msg := m; mt_comments := cs |} ms.
@@ -537,9 +533,9 @@ Qed.
 
 End Cover.
 
-(** The guard [mtext_id m <> []] cannot be dropped: a translate tag with an
-    empty message block asks the catalog for the id "" (its header entry),
-    and [messages()] reports nothing for it. *)
+(** The guard [reportable m] cannot be dropped: a translate tag with an empty
+    message block and no plural block asks the catalog for the id "" (its
+    header entry), and [messages()] reports nothing for it. *)
 Definition empty_block_template : template :=
   {| t_source := [123; 37; 32; 116; 32; 37; 125; 123; 37; 32; 101; 32; 37; 125]%N;
      t_nodes := NCons (NTranslate 0 [] {| mb_pos := 7; mb_parts := [] |} None) NNil |}.
@@ -552,6 +548,49 @@ Proof.
   exists empty_block_template,
          {| tc_call := CGettext (Some []); tc_pos := 0%N; tc_lit := true |}.
   vm_compute. repeat split. left. reflexivity.
+Qed.
+
+(** The guard [tc_lit] cannot be dropped either (known findings
+    translate-nonliteral-context, filter-nonliteral-operand): a message
+    context or plural operand that is not a string literal is looked up with
+    its run-time value, while extraction reports another family or nothing.
+
+    [{% translate context: 5 %}a{% endtranslate %}] asks for pgettext("5","a"),
+    extraction reports gettext("a"); [{{ 'a' | t: plural: nil }}] asks for
+    gettext("a"), extraction reports nothing. *)
+Definition nonliteral_context_template : template :=
+  {| t_source := [123; 37; 32; 116; 32; 53; 32; 37; 125; 97; 123; 37; 32; 101; 32; 37; 125]%N;
+     t_nodes := NCons (NTranslate 0 [(TaContext, (5%N, PInt 5))]
+                         {| mb_pos := 9; mb_parts := [MText 9 [97%N]] |} None) NNil |}.
+
+Definition nonliteral_plural_template : template :=
+  {| t_source := [123; 123; 32; 39; 97; 39; 32; 124; 32; 116; 58; 32; 112; 58; 32; 110; 32; 125; 125]%N;
+     t_nodes := NCons (NExpr KOutput 0
+                         (TFiltered 4 (PStr [97%N])
+                            [{| f_name := FT; f_args := [FKw KwPlural PNil] |}])) NNil |}.
+
+Definition uncovered (t : template) : Prop :=
+  exists ms tc m,
+    extract t = Ok ms /\
+    In tc (fst (render (fun _ => None) [] t)) /\
+    mtext_of_call (tc_call tc) = Some m /\ reportable m = true /\
+    forall mt, In mt ms -> mt_msg mt <> m.
+
+Lemma extraction_covers_lookups_refuted :
+  uncovered nonliteral_context_template /\ uncovered nonliteral_plural_template.
+Proof.
+  split.
+  - exists [{| mt_line := 1; mt_msg := MGettext [97%N]; mt_comments := [] |}],
+           {| tc_call := CPgettext [53%N] (Some [97%N]); tc_pos := 0%N; tc_lit := false |},
+           (MPgettext [53%N] [97%N]).
+    split; [vm_compute; reflexivity|]. split; [vm_compute; auto|].
+    split; [reflexivity|]. split; [reflexivity|].
+    intros mt [H|[]]. subst mt. discriminate.
+  - exists [], {| tc_call := CGettext (Some [97%N]); tc_pos := 4%N; tc_lit := false |},
+           (MGettext [97%N]).
+    split; [vm_compute; reflexivity|]. split; [vm_compute; auto|].
+    split; [reflexivity|]. split; [reflexivity|].
+    intros mt [].
 Qed.
 
 (** * Translator comments, on templates *)
